@@ -1077,6 +1077,12 @@ fn main() {
         let before = e.reg();
         let res = catch_unwind(AssertUnwindSafe(|| e.exec_op(line)));
         let mut lines: Vec<String> = vec![];
+        if let Ok(Err(msg)) = &res {
+            // a line outside the protocol: nothing was executed; the model's driver prints the same single line
+            writeln!(out, "> {msg}").unwrap();
+            out.flush().unwrap();
+            continue;
+        }
         match res {
             Ok(Ok(l)) => lines.extend(l),
             Ok(Err(msg)) => lines.push(msg),
